@@ -10,7 +10,7 @@
    orders of the code as it is now. *)
 From Coq Require Import List Bool Arith NArith.
 Import ListNotations.
-From C15 Require Import Model Reach Proofs ModelPar ModelPL ModelUse ProofsPar ProofsPL.
+From C15 Require Import Model Reach Proofs ModelPar ModelPL ModelUse ModelProxy CaseDefs ProofsPar ProofsPL ProofsProxy.
 
 (* From every crash state of every history the loader does not refuse to start. *)
 Theorem C15_startup_total : forall sorted s, reachable cur_progs sorted s -> pr s <> PFatal.
@@ -380,3 +380,90 @@ Example C15_nonvacuous_cache_powerloss :
   /\ p_lookup (p_run hdr [PLAdd 1; PLCreate 40; PLWrite 40; PLRename; PLPower 0 40 0; PLRestart]) 1 = Some (hdr 1)
   /\ p_lookup (p_run hdr [PLAdd 1; PLCreate 40; PLWrite 40; PLRename; PLAdd 2; PLCreate 80; PLWrite 80; PLRename; PLPower 1 40 0; PLRestart]) 2 = None.
 Proof. repeat split. Qed.
+
+(* ---------------------------------------------------------------- rotation, seal goroutines, retention, Stop: the proxyFrac state machine *)
+
+(* [prun evs s0]: the fractions of a running process, each with the three fields of its proxyFrac (active / sealed
+   not nil, readonly) as the code sets them, the position of its seal goroutine (fm.seal: first critical section of
+   proxyFrac.Seal, frac.Seal, second critical section + sealWg.Done, Release, replacement of the list entry) and of the
+   pass goroutine that deletes it (shiftFirstFrac, trySetSuicided, sealWg.Wait, trySetSuicided again, Active.Suicide /
+   Sealed.Suicide), after ANY sequence of: rotate, start of the seal goroutine of any fraction that has none yet
+   (maintenance after rotate, Stop()'s seal-on-exit of the current fraction), any step of any seal goroutine, a retention
+   pass pushing out any number of fractions (the current one included), any step of the Suicide of any pushed-out
+   fraction. FracManager.seal: no error -> goes on, ErrSealingFractionSuicided -> skip, any other error -> logger.Fatal
+   (p_fatal, the process is dead). s0: what FracManager.Load leaves (sealed fractions without a proxy, fresh proxies). *)
+
+(* For every interleaving FracManager.seal never reaches the Fatal branch. *)
+Theorem C15_seal_vs_suicide_no_fatal : forall evs s0, p_initial s0 = true -> p_fatal (prun evs s0) = false.
+Proof. exact seal_vs_suicide_no_fatal. Qed.
+Print Assumptions C15_seal_vs_suicide_no_fatal.
+
+(* ... a seal arriving after the Suicide is skipped whatever state (of the 4+1) the fraction was suicided from; the only
+   state trySetSuicided leaves alone is Sealing, and there Suicide waits for the seal instead. *)
+Theorem C15_suicided_recognised_from_every_state : forall x, px_known x = true ->
+  fm_seal_on (fst (seal_enter false (fst (try_set_suicided x)))) = if is_sealing_state x then ActFatal else ActSkip.
+Proof. exact suicided_recognised. Qed.
+Print Assumptions C15_suicided_recognised_from_every_state.
+
+(* All or nothing and oldest first at the level of the process, for every interleaving: every fraction is in one of
+   the 4+1 states and its fields fit the positions of its goroutines (pf_ok: before its seal has entered it is writable
+   or suicided, between the critical sections Sealing, afterwards Sealed or Suicided; a listed fraction is never
+   suicided; a Suicide that went on took exactly ONE instance - the Active one iff the swap has not happened, else the
+   Sealed one - so the files are deleted by the routine that owns them; a skipped seal belongs to a fraction whose
+   deletion went on); the fractions pushed out of the list are a prefix of the creation order; only pushed-out
+   fractions are deleted. *)
+Theorem C15_proxy_all_or_nothing : forall evs s0, p_initial s0 = true ->
+  Forall (fun f => pf_ok f = true) (p_fr (prun evs s0))
+  /\ prefix_shape (map k_listed (p_fr (prun evs s0))) = true
+  /\ Forall (fun f => pf_deleted f = true -> k_listed f = false) (p_fr (prun evs s0)).
+Proof. exact proxy_all_or_nothing. Qed.
+Print Assumptions C15_proxy_all_or_nothing.
+
+(* The directory model (ModelPar.v) decides by the process state of a fraction what a push-out and a seal do; the code
+   decides by the three fields. Both agree: for a fraction of the directory model whose proxy is in state x, evict1
+   starts exactly the deletion trySetSuicided selects (wait for the seal / Active.Suicide / Sealed.Suicide), the seal
+   starts iff the first critical section of proxyFrac.Seal lets it pass, and such a fraction is listed. (The directory
+   theorems above are over ModelPar.v, which merges shiftFirstFrac and the first trySetSuicided into one step.) *)
+Theorem C15_proxy_dispatch_agrees_with_directory_model : forall sorted s x, px_of_proc (pr s) = Some x ->
+  pr (evict1 s) = evict_by_fields x (pr s)
+  /\ (hasdata s = true ->
+      match fst (seal_enter false x) with
+      | None => pr (seal1 sorted s) = PSeal (seal_prog sorted) false
+      | Some _ => seal1 sorted s = s
+      end)
+  /\ listed s = true.
+Proof. exact dispatch_agrees. Qed.
+Print Assumptions C15_proxy_dispatch_agrees_with_directory_model.
+
+(* The scripted interleavings of the correspondence class proxy:* (CaseDefs.script_step: each step = the model events
+   the real goroutines perform until they are parked or blocked again) never kill the process in the model - the first
+   half of case_spec_ok for CProxy. *)
+Theorem C15_proxy_script_alive : forall n l, forallb po_alive (script_obs (script_init n) l) = true.
+Proof. exact script_alive. Qed.
+Print Assumptions C15_proxy_script_alive.
+
+(* the seeded predicate isSuicidedState = `active == nil && sealed == nil && readonly` ("aligned" with the table in the
+   header of proxy_frac.go): rotate, retention deletes the rotated fraction while it is Active & Writable (readonly stays
+   false), then its seal goroutine starts: "sealing fraction is not active" -> logger.Fatal *)
+Example C15_seal_vs_suicide_readonly_variant_refuted :
+  exists evs, p_fatal (prun_ro evs (mkp [] false)) = true /\ p_fatal (prun evs (mkp [] false)) = false.
+Proof. exact ro_variant_fatal. Qed.
+
+(* non-vacuity: the hypothesis is met by the empty store and by a loaded one; each of the 4+1 states is reached; a seal
+   after the suicide is skipped, a suicide during the seal waits and then takes the Sealed instance *)
+Example C15_nonvacuous_proxy :
+  p_initial (mkp [] false) = true /\ p_initial (mkp [pf_loaded_sealed; pf_new] false) = true
+  /\ map xf_x (p_fr (prun [PRotate; PRotate; PRotate; PRotate; PRotate;
+                           PSealGo 1; PSealEnter 1; PSealGo 2; PSealEnter 2; PSealSwap 2;
+                           PSealGo 3; PSealEnter 3; PSealSwap 3; PPass 1; PSuicide 0; PSealGo 0; PSealEnter 0]
+                          (mkp [] false)))
+     = [px_suicided_rw; px_sealing; px_sealed; px_sealed; px_writable]
+  /\ map (fun f => (xf_x f, xf_g f, xf_k f))
+         (p_fr (prun [PRotate; PRotate; PPass 1; PSuicide 0; PSealGo 0; PSealEnter 0] (mkp [] false)))
+     = [(px_suicided_rw, GSkipped, KDone true false); (px_writable, GNone, KListed)]
+  /\ map (fun f => (xf_x f, xf_g f, xf_k f))
+         (p_fr (prun [PRotate; PRotate; PSealGo 0; PSealEnter 0; PPass 1; PSuicide 0; PSuicide 0; PSealSwap 0; PSuicide 0; PSealInstall 0] (mkp [] false)))
+     = [(px_suicided_ro, GInstalled, KDone false true); (px_writable, GNone, KListed)]
+  /\ px_of_proc (pr clean_active) = Some px_writable
+  /\ po_alive (last (script_obs (script_init 1) [SRotate; SPass 2; SSealEnter 1; SPass 1; SStop]) (mkpobs false [])) = true.
+Proof. repeat split; vm_compute; reflexivity. Qed.
